@@ -12,6 +12,8 @@ import (
 	"strings"
 	"testing"
 	"time"
+
+	"github.com/liftbridge-io/liftbridge/server/logger"
 )
 
 func lbvcLog(t *testing.T, opts Options) (*commitLog, func()) {
@@ -1063,6 +1065,58 @@ func TestLbvcScenarioTimestamps(t *testing.T) {
 				cleanup()
 			}
 		}
+	}
+	lbvcScenarioTail(t, problems)
+}
+
+type lbvcHookLogger struct {
+	logger.Logger
+	hook func()
+}
+
+func (h *lbvcHookLogger) Debugf(format string, v ...interface{}) {
+	if strings.HasPrefix(format, "Finished compacting log") && h.hook != nil {
+		hook := h.hook
+		h.hook = nil
+		hook()
+	}
+}
+
+// A leader epoch that starts while a compaction is running (after the compaction has scanned the active segment, before
+// Clean installs the rebuilt epoch cache) must still be known afterwards: with and without further segment rolls.
+func TestLbvcScenarioEpochsDuringCompaction(t *testing.T) {
+	var problems []string
+	for _, rolls := range []int{0, 2} {
+		hl := &lbvcHookLogger{Logger: noopLogger()}
+		l, cleanup := lbvcLog(t, Options{MaxSegmentBytes: 90, Compact: true, Logger: hl})
+		one := func(k string, epoch uint64) int64 {
+			offs, err := l.Append([]*Message{{Key: []byte(k), Value: []byte("v"), Timestamp: time.Now().UnixNano(), LeaderEpoch: epoch}})
+			if err != nil || len(offs) != 1 {
+				return -1
+			}
+			return offs[0]
+		}
+		for _, k := range []string{"a", "b", "a", "c", "d"} {
+			l.SetHighWatermark(one(k, 1))
+		}
+		first := int64(-1)
+		hl.hook = func() {
+			first = one("x", 2) // still in the old active segment
+			for i := 0; i < 2*rolls; i++ {
+				one(fmt.Sprintf("k%d", i), 2)
+			}
+		}
+		if err := l.Clean(); err != nil {
+			problems = append(problems, "Clean: "+err.Error())
+		} else if one("after", 2); first < 0 {
+		} else if got := l.LastOffsetForLeaderEpoch(1); got != first {
+			var cache []string
+			for _, e := range l.leaderEpochCache.epochOffsets {
+				cache = append(cache, fmt.Sprintf("%d@%d", e.leaderEpoch, e.startOffset))
+			}
+			problems = append(problems, fmt.Sprintf("epoch 2 starts at offset %d, appended to the active segment while a compaction was running (%d further segment rolls): afterwards the log answers %d for the end of epoch 1 (newest offset %d); epoch cache %v", first, rolls, got, l.NewestOffset(), cache))
+		}
+		cleanup()
 	}
 	lbvcScenarioTail(t, problems)
 }
